@@ -174,6 +174,69 @@ def cases(draw, q):
     return spec
 
 
+def adjacent_coolant(reg):
+    """Coolant temperature facing the inner surface of the outermost duct, one value per duct cell."""
+    if reg.is_rodded:
+        if reg.n_duct > 1:
+            return np.array(reg.temp["coolant_byp"][-1], float).copy()
+        return np.array(reg.temp["coolant_int"][reg.subchannel.n_sc["coolant"]["interior"]:], float).copy()
+    t = np.array(reg.temp["coolant_int"], float).ravel()
+    n = reg.temp["duct_mw"].shape[1]
+    return t.copy() if t.size == n else np.full(n, t[0])
+
+
+def run_swept(spec):
+    """The stored wall state of a real sweep: with the adiabatic option and no wall heating the outer flux is zero, hence
+    the inner flux is zero and the outermost wall (both surfaces, mid-wall) is at the temperature of the coolant next to
+    it - of the level the wall was solved with (previous level for pin bundles, new level for the low-fidelity models)."""
+    o = Outcome()
+    with drive.Case(spec) as c:
+        r = c.setup()
+        asm = r.assemblies[0]
+        prev = {}
+        seen = set()
+        worst = [0.0]
+        rise = [0.0]
+        T0 = float(spec["core"]["coolant_inlet_temp"])
+
+        def before(i, z, dz):
+            prev["adj"] = adjacent_coolant(asm.active_region)
+
+        def after(i, z, dz, regs):
+            reg = regs[0]
+            old, new = prev["adj"], adjacent_coolant(reg)
+            kind = "rodded" if reg.is_rodded else reg.model
+            seen.add(kind)
+            rise[0] = max(rise[0], float(np.max(np.abs(new - T0))))
+            d = reg.temp["duct_mw"].shape[0] - 1
+            for name, T in (("inner_surface", reg.temp["duct_surf"][d, 0]), ("mid_wall", reg.temp["duct_mw"][d]),
+                            ("outer_surface", reg.temp["duct_surf"][d, 1])):
+                T = np.array(T, float)
+                e_old, e_new = float(np.max(np.abs(T - old))), float(np.max(np.abs(T - new)))
+                e = min(e_old, e_new)
+                worst[0] = max(worst[0], e)
+                o.check(e <= 1e-8, "swept_adiabatic_wall_not_at_coolant_temperature_" + kind,
+                        "step %d z=%.6f %s: differs from the adjacent coolant by %.3e K (previous level) / %.3e K (new level)"
+                        % (i, z, name, e_old, e_new))
+        drive.sweep(r, before, after)
+        o.metric("swept_wall_dev_K", worst[0])
+        o.classes.update({"swept_kinds": "+".join(sorted(seen)), "regions": len(asm.region)})
+        o.nontrivial = rise[0] > 1.0
+    return o
+
+
+@st.composite
+def swept_cases(draw, q):
+    spec = draw(gen.single_assembly(rings=(2, 3) if q else (2, 5), ducts=(1, 3), n_steps=(15, 40), gap_model="none",
+                                    regimes=("lam", "tra", "tur"), regions=True, lowfi=True, duct_const=draw(st.booleans()),
+                                    dT=(10.0, 150.0), comps=draw(st.sampled_from([("pins",), ("pins", "cool"), ("cool",)]))))
+    for reg_ in (spec["assemblies"]["A"].get("AxialRegion") or {}).values():
+        if draw(st.booleans()):
+            reg_["model"] = "6node"
+    return spec
+
+
 def parts(tier):
     q = tier == "quick"
-    return [Part("slab_solution", run, strategy=cases(q), examples=160 if q else 5000, timeout=120)]
+    return [Part("slab_solution", run, strategy=cases(q), examples=160 if q else 5000, timeout=120),
+            Part("swept_adiabatic_walls", run_swept, strategy=swept_cases(q), examples=64 if q else 1500, timeout=120)]
